@@ -92,6 +92,10 @@ func (f F) wire(w *wire.W) {
 	case "bitset":
 		w.BitSet(f.L)
 	case "nbt":
+		if f.I == 3 { // absent: a lone TAG_End
+			w.U8(0)
+			break
+		}
 		b, _ := rn.Encode(f.Tree, true, nil)
 		w.Bytes(b)
 	case "ary":
@@ -225,6 +229,9 @@ func aryField(lenKind string, ary any) pk.Field {
 func (f F) encoder() pk.FieldEncoder {
 	switch f.K {
 	case "nbt":
+		if f.I == 3 {
+			return pk.NBT(nil)
+		}
 		a := gm.AnyVD(f.Tree)
 		v := gm.Build(a.Dyn, a.Elems[0])
 		if f.I == 1 {
@@ -289,6 +296,11 @@ func (f F) decoder() (pk.FieldDecoder, func() string) {
 	pre := f.Pre
 	switch f.K {
 	case "nbt":
+		if f.I == 3 {
+			// "no NBT": what the destination holds afterwards is not specified; the count and the bytes taken are
+			v := any(int32(7))
+			return pk.NBT(&v), func() string { return "" }
+		}
 		if f.I == 1 {
 			var m nbt.RawMessage
 			return pk.NBTField{V: &m, AllowUnknownFields: true}, func() string {
@@ -587,6 +599,31 @@ func c06Check(c C06Case) *pbt.Violation {
 		decs = append(decs, d)
 		cmps = append(cmps, cm)
 	}
+	// a packet that ends at a field boundary with fields still to come is an error, not a shorter packet
+	if len(c.Fields) >= 2 {
+		var cut wire.W
+		for _, f := range c.Fields[:len(c.Fields)-1] {
+			f.wire(&cut)
+		}
+		var lastW wire.W
+		c.Fields[len(c.Fields)-1].wire(&lastW)
+		if len(lastW.B) > 0 && !lastIsPlugin(c.Fields[len(c.Fields)-1]) {
+			var decs2 []pk.FieldDecoder
+			for _, f := range c.Fields {
+				d, _ := f.decoder()
+				decs2 = append(decs2, d)
+			}
+			short := pk.Packet{ID: c.ID, Data: cut.B}
+			var serr error
+			if pv, stack := pbt.Try(func() { serr = short.Scan(decs2...) }); pv != nil {
+				return pbt.V(pbt.PanicKey("c06.scan", stack), "no panic", "Scan of a packet cut at the last field boundary panicked: %v\n%s", pv, stack)
+			}
+			if serr == nil {
+				return pbt.V("c06.scan.short-accepted", "Scan composes the fields in order (all of them)",
+					"Scan of %d fields succeeded on a packet that ends after field %d (the last field takes %d bytes)", len(c.Fields), len(c.Fields)-1, len(lastW.B))
+			}
+		}
+	}
 	var err error
 	if pv, stack := pbt.Try(func() { err = p.Scan(decs...) }); pv != nil {
 		return pbt.V(pbt.PanicKey("c06.scan", stack), "no panic", "Scan panicked: %v\n%s", pv, stack)
@@ -754,6 +791,9 @@ func genLeaf(t *rapid.T, k string) F {
 		f.Tree = gen.Tree(t, gen.TreeOpts{MaxDepth: 3, MaxNodes: 10, NoBigStr: true})
 		f.I = int64(rapid.IntRange(0, 1).Draw(t, "nbt_raw"))
 		f.U = uint64(rapid.IntRange(0, 1).Draw(t, "nbt_nilroot"))
+		if rapid.IntRange(0, 11).Draw(t, "nbt_absent") == 5 {
+			f.I = 3 // the optional-NBT "absent" form
+		}
 		if rapid.IntRange(0, 9).Draw(t, "nbt_emptyroot") == 4 {
 			// roots that are empty collections (typed nil when nbt_nilroot is set)
 			f.Tree = rapid.SampledFrom([]*rn.Tag{{Type: rn.Compound}, {Type: rn.List, Elem: rn.End}, {Type: rn.LongArray}, {Type: rn.IntArray}, {Type: rn.ByteArray}}).Draw(t, "emptyroot")
